@@ -20,6 +20,7 @@ import (
 
 type RigOpts struct {
 	ServerPing    time.Duration // 0 = library default (5s)
+	ServerPingOff bool          // server sends no pings (and answers the client's pings with pongs)
 	ClientTimeout time.Duration // 0 = library default (30s)
 	ClientPing    time.Duration // 0 = library default (5s)
 	BackoffMin    time.Duration
@@ -171,7 +172,9 @@ func NewRig(o RigOpts) (*Rig, error) {
 	r := &Rig{Opts: o, W: NewWorld(), name: fmt.Sprintf("r%d", atomic.AddInt64(&rigSeq, 1))}
 	r.API = &TokAPI{W: r.W}
 	var sopts []jsonrpc.ServerOption
-	if o.ServerPing != 0 {
+	if o.ServerPingOff {
+		sopts = append(sopts, jsonrpc.WithServerPingInterval(0))
+	} else if o.ServerPing != 0 {
 		sopts = append(sopts, jsonrpc.WithServerPingInterval(o.ServerPing))
 	}
 	if o.Reverse {
